@@ -210,15 +210,19 @@ def run_static(cfg, R):
     n = 0
     for combo in itertools.product(("nn_params", "eq_params", "both"), repeat=len(terms)):
         spec = dict(zip(terms, combo))
-        a = cls.from_str(params, **spec)
-        b = cls(**{t: tree(s) for t, s in spec.items()})
+        try:
+            a = cls.from_str(params, **spec)
+            b = cls(**{t: tree(s) for t, s in spec.items()})
+            a2 = cls.from_str(params, **{**spec, terms[0]: tree(combo[0])})          # mixed: one term given as a tree, the others as strings
+        except Exception as ex:      # a documented way of giving the keys is rejected
+            R.records.append(dict(prog=prog, goal=f"from_str({spec}) is accepted", verdict="sat", phase="static", ms=0.0))
+            R._record_violation(f"{kind}:from_str-raises", prog, "from_str", {}, note=f"{type(ex).__name__}: {str(ex)[:120]} for {spec}")
+            continue
         same = all(jax.tree_util.tree_leaves(getattr(a, t)) == jax.tree_util.tree_leaves(getattr(b, t)) and
                    jax.tree_util.tree_structure(getattr(a, t)) == jax.tree_util.tree_structure(getattr(b, t)) for t in terms)
         R.records.append(dict(prog=prog, goal=f"from_str({spec}) == boolean tree", verdict="structural" if same else "sat", phase="static", ms=0.0))
         if not same:
             R._record_violation(f"{kind}:from_str", prog, "from_str", {}, note=str(spec))
-        # mixed: one term given as a tree, the others as strings
-        a2 = cls.from_str(params, **{**spec, terms[0]: tree(combo[0])})
         same2 = all(jax.tree_util.tree_leaves(getattr(a2, t)) == jax.tree_util.tree_leaves(getattr(b, t)) for t in terms)
         if not same2: R._record_violation(f"{kind}:from_str-mixed", prog, "from_str", {}, note=str(spec))
         n += 1
